@@ -180,5 +180,9 @@ Qed.
 Lemma on_retract_response_WI s w ids s' : WI (core_of s) -> on_retract_response s w ids = Ok s' -> WI (core_of s').
 Proof.
   unfold on_retract_response. intros HW H. destruct (retract_response_states _ w ids []) as [c' groups] eqn:E.
-  rewrite (send_redirected_core _ _ _ H). change (WI c'). eapply retract_response_states_WI; [exact HW | exact E].
+  apply bind_ok in H. destruct H as (s2 & H & H2).
+  assert (X2 : WI (core_of s2)).
+  { rewrite (send_redirected_core _ _ _ H). change (WI c'). eapply retract_response_states_WI; [exact HW | exact E]. }
+  destruct (retract_wakes _ _ _ _); inversion H2; subst s'; clear H2; [|exact X2].
+  refine (WIX_frame _ (core_of s2) _ eq_refl eq_refl eq_refl eq_refl _). exact X2.
 Qed.
